@@ -405,3 +405,16 @@ func FlushAll() {
 		s.Flush()
 	}
 }
+
+// KeepNote stores a diagnostic text under /verif/.scratch/notes (best effort): observations that are no
+// violation but worth studying later.
+func KeepNote(name, text string) {
+	dir := os.Getenv("VERIF_NOTES_DIR")
+	if dir == "" {
+		dir = "/verif/.scratch/notes"
+	}
+	if os.MkdirAll(dir, 0o755) != nil {
+		return
+	}
+	_ = os.WriteFile(fmt.Sprintf("%s/%s-%d-%d.txt", dir, name, os.Getpid(), time.Now().UnixNano()), []byte(text), 0o644)
+}
